@@ -16,6 +16,37 @@ def run(ctx):
     import pairs
     # binding A': every interleaving (TLC, NsqdCore) of two operations' critical sections forced on the real daemon
     pairs.run_pairs(ctx, "C08", sample=None if not ctx.quick else 220)
+    # what is left behind: disk files, re-creation, ephemeral objects, concurrent deletions all answered
+    import json, os
+    from vlib import Inconclusive
+    cases = []
+    for i in range(12 if ctx.quick else 120):
+        cases.append({"kind": "recreate", "seed": ctx.seed * 100 + i, "fails": []})
+    for i in range(2 if ctx.quick else 12):
+        cases.append({"kind": "deleterace", "seed": ctx.seed * 100 + i, "fails": []})
+    for i in range(2 if ctx.quick else 10):
+        cases.append({"kind": "ephemeral", "seed": ctx.seed * 100 + i, "fails": []})
+    cf = os.path.join(ctx.scratch, "c08-cases.json")
+    json.dump(cases, open(cf, "w"))
+    of = os.path.join(ctx.scratch, "c08-obs.json")
+    d = os.path.join(ctx.scratch, "c08-data")
+    os.makedirs(d, exist_ok=True)
+    rc, out, err = ctx.run_harness(["c08extra", "--cases", cf, "--out", of, "--dir", d], name="core", timeout=3000)
+    if rc != 0 or not os.path.exists(of):
+        if "panic:" in err:
+            ctx.violation("the daemon panicked during delete / re-create / ephemeral scenarios: " + err[-600:],
+                          ctx.save_replay("c08extra-crash", {"stderr": err[-3000:]}), key="c08extra:crash")
+        else:
+            raise Inconclusive("c08extra failed: " + (out + err)[-1500:])
+    else:
+        for o in json.load(open(of)):
+            if o.get("inconclusive"):
+                ctx.notes.setdefault("inconclusive_cases", []).append(o["kind"] + ": " + o["inconclusive"][:150])
+                continue
+            ctx.cov["evaluations"] += o.get("ops", 0)
+            for f in o["fails"]:
+                ctx.violation("%s (seed %d): %s" % (o["kind"], o["seed"], f), ctx.save_replay("c08-" + o["kind"], o),
+                              key="c08extra:%s:%s" % (o["kind"], f[:30]))
     n = 16 if ctx.quick else 120
     corelib.run_modes(ctx, "C08", [("churn", n), ("flow", n // 2)])
     ctx.cov["distinct_nontrivial"] = len(ctx.notes.get("event_kinds", {}))
